@@ -69,7 +69,8 @@ def handlers_of(db, arch):
             continue
         h = db.hir[k]
         ins = h.get("inputs") or []
-        if any("&mut il::control_flow_graph::ControlFlowGraph" in i for i in ins) and h.get("output", "").startswith("std::result::Result"):
+        # a handler fills the graph and answers Ok(()); helpers that return a value (block indices ...) are plumbing
+        if any("&mut il::control_flow_graph::ControlFlowGraph" in i for i in ins) and h.get("output", "").startswith("std::result::Result<(),"):
             out.append(k)
     return sorted(out)
 
